@@ -17,6 +17,7 @@ package main
 import (
 	"bytes"
 	"encoding/json"
+	"errors"
 	"fmt"
 	"reflect"
 	"strings"
@@ -590,6 +591,7 @@ func idx(n int) []uint64 {
 // blockBinding: content mutations with the header fields kept
 func (e *env) blockBinding(cs consensus.State, orig types.Block, bs consensus.V1BlockSupplement) {
 	e.bindingLoop(cs, orig, bs)
+	e.parentStateBinding(cs, orig, bs)
 	// the same v1 content in a v2 envelope below the allow height (accepted when its commitment is right): its ID is
 	// then the header with that commitment, which must bind the content all the same
 	if h := cs.Index.Height + 1; orig.V2 == nil && h < e.c.Net.N.HardforkV2.AllowHeight {
@@ -606,6 +608,66 @@ func (e *env) blockBinding(cs consensus.State, orig types.Block, bs consensus.V1
 			} else {
 				e.b.Count("v2_envelopes_below_the_allow_height_rejected", 1)
 			}
+		}
+	}
+}
+
+// parentStateBinding: the commitment of a v2 block (hence its ID) covers the parent state. With the block's own
+// commitment computed first, every single-field change of the state - chain index included or not - gives another
+// commitment, the block is refused on the changed state, and the original state still gives the original commitment
+// afterwards (a result may not depend on which states were committed to before).
+func (e *env) parentStateBinding(cs consensus.State, orig types.Block, bs consensus.V1BlockSupplement) {
+	if orig.V2 == nil || len(orig.MinerPayouts) == 0 {
+		return
+	}
+	rng := e.c.Rng
+	miner := orig.MinerPayouts[0].Address
+	base := cs.Commitment(miner, orig.Transactions, orig.V2Transactions())
+	if base != orig.V2.Commitment {
+		return
+	}
+	nts := int(min(cs.Index.Height+1, uint64(len(cs.PrevTimestamps))))
+	var cand []string
+	probe := cs
+	for _, p := range mutate.Leaves(&probe) {
+		if strings.HasPrefix(p, ".Network") {
+			continue
+		}
+		var i int
+		if n, _ := fmt.Sscanf(p, ".Elements.Trees[%d]", &i); n == 1 && cs.Elements.NumLeaves&(1<<uint(i)) == 0 {
+			continue // unused slot: not part of the state
+		}
+		if n, _ := fmt.Sscanf(p, ".PrevTimestamps[%d]", &i); n == 1 && i >= nts {
+			continue
+		}
+		cand = append(cand, p)
+	}
+	n := min(e.per, len(cand))
+	for _, k := range rng.Perm(len(cand))[:n] {
+		p := cand[k]
+		class := mutate.Class(p)
+		alt := cs
+		if !mutate.Apply(&alt, p, rng.IntN(3)) || bytes.Equal(encState(alt), encState(cs)) {
+			continue
+		}
+		e.b.Eval(1)
+		e.b.Count("parent_state_fields_changed_under_a_v2_block", 1)
+		e.b.Distinct("parent-state", class)
+		wit := map[string]any{"field": class, "height": cs.Index.Height + 1}
+		if alt.Commitment(miner, orig.Transactions, orig.V2Transactions()) == base {
+			e.b.Violate("C12/block-not-bound/parent-state"+class, fmt.Sprintf("after changing %s of the parent state the commitment of the v2 block is unchanged", class), wit)
+		} else if err := func() (err error) {
+			defer func() {
+				if recover() != nil {
+					err = errors.New("panic")
+				}
+			}()
+			return consensus.ValidateBlock(alt, orig, bs)
+		}(); err == nil {
+			e.b.Violate("C12/block-not-bound/parent-state"+class+"/accepted", fmt.Sprintf("the v2 block is accepted on a parent state that differs in %s", class), wit)
+		}
+		if cs.Commitment(miner, orig.Transactions, orig.V2Transactions()) != base {
+			e.b.Violate("C12/commitment-depends-on-states-seen-before"+class, "the commitment over the original parent state differs after a commitment over a changed state was computed", wit)
 		}
 	}
 }
@@ -951,6 +1013,6 @@ func main() {
 		Run:         run,
 		MinEvals:    5000,
 		MinDistinct: 150,
-		Require:     []string{"attestation_only_transaction_repeated", "empty_contract_proof_pairs", "polyglot_constructions", "era_first_block_cases", "accepted_blocks", "effect_bearing_changes_detected", "exempt_changes_ignored", "derived_ids_in_collision_table", "era_separation_cases", "framing_pairs", "block_mutations_changing_the_id", "block_mutations_rejected_with_same_id"},
+		Require:     []string{"attestation_only_transaction_repeated", "empty_contract_proof_pairs", "polyglot_constructions", "era_first_block_cases", "accepted_blocks", "effect_bearing_changes_detected", "exempt_changes_ignored", "derived_ids_in_collision_table", "era_separation_cases", "framing_pairs", "block_mutations_changing_the_id", "block_mutations_rejected_with_same_id", "parent_state_fields_changed_under_a_v2_block"},
 	})
 }
